@@ -204,3 +204,101 @@ Theorem generated_prune_taxa_keep_all_suppresses :
   end = Some (T 0 None None None [T 2 (Some 0) None (Some 3072) []; T 3 (Some 1) None (Some 1024) []]).
 Proof. exact C08GenPruneKeepAll.keep_all_suppresses. Qed.
 Print Assumptions generated_prune_taxa_keep_all_suppresses.
+
+(* ---- wave 10: the pointer-level AND the generated prune_taxa / retain_taxa compute `restrict` ----
+   Closes the gap named in wave 8: HeapOps.v's prune_taxa (post-order loop of parent.remove_child(nd) on the
+   leaves carrying one of the taxa, then prune_leaves_without_taxa(recursive=True) with its while loop, then
+   the suppress_unifurcations / update_bipartitions tail) is simulated step by step by C08Model's
+   transcription (Proofs/C08W10Prune.v: one removal of a childless node = C03Spec.spec_prune = C08's
+   upd_below rm_f; fold_sim for both removal loops; loop_sim for the while loop up to fuel; finish_spec_tail
+   for the tail), and the transcription equals restrict (prune_is_restrict, Props/C08.v).  Hence on every
+   well-formed heap h whose abstraction is the id-carrying rose tree t (taxa on leaves only), the heap
+   program - and through C03GenPrune's gen_prune_taxa / gen_retain_taxa the method COMPILED FROM _tree.py -
+   returns a well-formed heap whose abstraction is restrict su (drop_taxa taxa) t with the structural effect
+   of update_bipartitions on top (with_update: basal collapse of a tree that is not rooted + suppression if
+   asked, nothing if ub = false), for BOTH settings of suppress_unifurcations and trees WITH pre-existing
+   unifurcations; if the restriction is empty the heap program raises.  is_apply_filter_to_internal_nodes
+   = False (the default), is_apply_filter_to_leaf_nodes = True.  The generated-code fuel bound is just
+   fuel_of h <= fuel (the first loop keeps the number of heap cells: phase1_fuel). *)
+From DV Require Proofs.C08Prune Proofs.C08W10Prune Proofs.C08W10PruneGen.
+
+Theorem heap_prune_taxa_is_restrict :
+  forall (taxa : list Z) (ub su : bool) (h : heap) (t r : tree),
+  WF h -> abs h = Some t -> C08Model.leaf_taxa_only t = true ->
+  C08Model.restrict su (C08Model.drop_taxa taxa) t = Some r ->
+  exists h', HeapOps.prune_taxa taxa ub su true false h = HOk h' /\ WF h' /\
+             abs h' = Some (fst (C08Prune.with_update ub su (rooted h) r)).
+Proof. exact C08W10Prune.heap_prune_taxa_is_restrict_l. Qed.
+Print Assumptions heap_prune_taxa_is_restrict.
+
+(* nothing survives: the heap program raises (AttributeError at the seed) and leaves a well-formed heap *)
+Theorem heap_prune_taxa_empties :
+  forall (taxa : list Z) (ub su : bool) (h : heap) (t : tree),
+  WF h -> abs h = Some t -> C08Model.leaf_taxa_only t = true ->
+  C08Model.restrict su (C08Model.drop_taxa taxa) t = None ->
+  exists e h', HeapOps.prune_taxa taxa ub su true false h = HErr e h' /\ In e [AttrErr; ValueErr] /\ WF h'.
+Proof. exact C08W10Prune.heap_prune_taxa_empties_l. Qed.
+Print Assumptions heap_prune_taxa_empties.
+
+(* the simulation itself, without the leaf-taxa-only hypothesis and for either value of
+   is_apply_filter_to_leaf_nodes: whatever tree the transcription returns, the heap program returns a heap
+   abstracting to it *)
+Theorem heap_prune_taxa_refines_transcription :
+  forall (taxa : list Z) (ub su ol : bool) (h : heap) (t t' : tree) (r' : option bool),
+  WF h -> abs h = Some t ->
+  C08Model.prune_taxa taxa ub su ol false (t, rooted h) = C08Model.IOk ([], t', r') ->
+  exists h', HeapOps.prune_taxa taxa ub su ol false h = HOk h' /\ WF h' /\ abs h' = Some t'.
+Proof. exact C08W10Prune.heap_prune_taxa_link. Qed.
+Print Assumptions heap_prune_taxa_refines_transcription.
+
+(* retain_taxa (complement within the namespace): the restriction to the retained taxa when every leaf
+   taxon is a member of the namespace *)
+Theorem heap_retain_taxa_is_restrict :
+  forall (ns keep : list Z) (ub su : bool) (h : heap) (t r : tree),
+  WF h -> abs h = Some t -> C08Model.leaf_taxa_only t = true ->
+  (forall n a, In n (leaves t) -> t_taxon n = Some a -> C08Model.memz a ns = true) ->
+  C08Model.restrict su (C08Model.keep_taxa keep) t = Some r ->
+  exists h', HeapOps.retain_taxa ns keep ub su h = HOk h' /\ WF h' /\
+             abs h' = Some (fst (C08Prune.with_update ub su (rooted h) r)).
+Proof. exact C08W10Prune.heap_retain_taxa_is_restrict_l. Qed.
+Print Assumptions heap_retain_taxa_is_restrict.
+
+Theorem generated_prune_taxa_is_restrict :
+  forall (fuel : nat) (taxa : list Z) (ub su : bool) (h : heap) (t r : tree),
+  (Heap.fuel_of h <= fuel)%nat ->
+  WF h -> abs h = Some t -> C08Model.leaf_taxa_only t = true ->
+  C08Model.restrict su (C08Model.drop_taxa taxa) t = Some r ->
+  exists h', to_hres (Tree_prune_taxa HG fuel taxa ub su true false h) = HOk h' /\ WF h' /\
+             abs h' = Some (fst (C08Prune.with_update ub su (rooted h) r)).
+Proof. exact C08W10PruneGen.gen_prune_taxa_is_restrict. Qed.
+Print Assumptions generated_prune_taxa_is_restrict.
+
+Theorem generated_retain_taxa_is_restrict :
+  forall (fuel : nat) (ns keep : list Z) (ub su : bool) (h : heap) (t r : tree),
+  (Heap.fuel_of h <= fuel)%nat ->
+  WF h -> abs h = Some t -> C08Model.leaf_taxa_only t = true ->
+  (forall n a, In n (leaves t) -> t_taxon n = Some a -> C08Model.memz a ns = true) ->
+  C08Model.restrict su (C08Model.keep_taxa keep) t = Some r ->
+  exists h', to_hres (Tree_retain_taxa HG fuel ns keep ub su h) = HOk h' /\ WF h' /\
+             abs h' = Some (fst (C08Prune.with_update ub su (rooted h) r)).
+Proof. exact C08W10PruneGen.gen_retain_taxa_is_restrict. Qed.
+Print Assumptions generated_retain_taxa_is_restrict.
+
+(* hypotheses satisfiable - ((A,B)X,C)R rooted, prune {A}, suppress_unifurcations=True: X becomes a
+   unifurcation and is suppressed (B:1024 + X:2048 = 3072) - and the generated method run on it *)
+Theorem generated_prune_taxa_is_restrict_nonvacuous :
+  (Heap.fuel_of C08W10Prune.w10_heap <= 10)%nat /\
+  WF C08W10Prune.w10_heap /\ abs C08W10Prune.w10_heap = Some C08W10Prune.w10_tree /\
+  C08Model.leaf_taxa_only C08W10Prune.w10_tree = true /\
+  C08Model.restrict true (C08Model.drop_taxa [0]) C08W10Prune.w10_tree =
+    Some (T 0 None None None [T 3 (Some 1) None (Some 3072) []; T 4 (Some 2) None (Some 1024) []]).
+Proof. exact C08W10PruneGen.gen_prune_taxa_is_restrict_hyps. Qed.
+Print Assumptions generated_prune_taxa_is_restrict_nonvacuous.
+
+Theorem generated_prune_taxa_is_restrict_run :
+  match to_hres (Tree_prune_taxa HG 10 [0] false true true false C08W10Prune.w10_heap) with
+  | HOk h' => abs h'
+  | _ => None
+  end = Some (T 0 None None None [T 3 (Some 1) None (Some 3072) []; T 4 (Some 2) None (Some 1024) []]).
+Proof. exact C08W10PruneGen.gen_prune_taxa_w10_run. Qed.
+Print Assumptions generated_prune_taxa_is_restrict_run.
